@@ -38,6 +38,7 @@ def Collecting : List CtxState → Prop
   | [] => True
   | .args _ :: rest => Collecting rest
   | .frame _ :: _ => False
+  | .sframe _ :: _ => False
 
 /-- the relation between a reference state and a VM state inside one activation with slot table `slots`, whose frame
 sits under the collecting prefix `pre` and above the (untouched) rest `below` of the context stack -/
@@ -55,9 +56,9 @@ def SameStacks (σ σ' : Vm) : Prop :=
   σ'.trace = σ.trace ∧ σ'.skipNewline = σ.skipNewline
 
 /-- every procedure's code lies at its layout address -/
-def ProcsAt (code : Code) (lay : List Nat) (procs : List (ProcDecl SStmt)) : Prop :=
+def ProcsAt (code : Code) (lay : Layout) (procs : List (ProcDecl SStmt)) : Prop :=
   lay.length = procs.length ∧
-  ∀ f d, procs[f]? = some d → CodeAt code (lay.getD f 0) (compileProc lay (lay.getD f 0) d)
+  ∀ f d, procs[f]? = some d → CodeAt code (lay.addr f) (compileProc lay (lay.addr f) d)
 
 /-- the run ends in an error `(c, p)` with the output `out` -/
 def ErrsWith (code : Code) (σ : Vm) (c : Nat) (p : Pos) (out : Print.WritePrinter) : Prop :=
@@ -68,7 +69,7 @@ def HaltsWith (code : Code) (σ : Vm) (out : Print.WritePrinter) : Prop :=
   ∃ σ1 σ2, Steps code σ σ1 ∧ step code σ1 = .halt σ2 ∧ σ2.out = out
 
 /-- expression evaluation (`Ref.eval`) vs the code of `compileExpr` at `off` -/
-def ExprSpec (P : Program) (code : Code) (lay : List Nat) (slots : List Ty) (fuel : Nat) (e : Expr) : Prop :=
+def ExprSpec (P : Program) (code : Code) (lay : Layout) (slots : List Ty) (fuel : Nat) (e : Expr) : Prop :=
   ∀ off pre below s σ, CodeAt code off (compileExpr lay off e) → σ.pc = off → Rel slots pre below s σ →
     match Ref.eval P fuel e s with
     | (s', .ok v) =>
@@ -84,7 +85,7 @@ def ActInv (fd sd : Nat) (σ : Vm) : Prop :=
   sd ≤ σ.vals.length
 
 /-- statement execution (`Ref.exec`) vs the code of `compileStmt` at `off` -/
-def StmtSpec (P : Program) (code : Code) (lay : List Nat) (slots : List Ty) (fuel : Nat) (st : SStmt) : Prop :=
+def StmtSpec (P : Program) (code : Code) (lay : Layout) (slots : List Ty) (fuel : Nat) (st : SStmt) : Prop :=
   ∀ sfx fd sd off below s σ, CodeAt code off (compileStmt lay sfx fd sd off st) → σ.pc = off →
     Rel slots [] below s σ → σ.paths = [] → σ.skipNewline = false → ActInv fd sd σ →
     match Ref.exec P fuel (desugar st) s with
